@@ -22,7 +22,7 @@ func init() {
 }
 
 // judgeC01 runs one case and returns (violation key, message) or "".
-func judgeC01(c SyncCase) (string, string, *SyncObs) {
+func judgeC01Raw(c SyncCase) (string, string, *SyncObs) {
 	d := newSyncDirs()
 	defer d.close()
 	if !c.Mem {
@@ -508,4 +508,14 @@ func replayC01(raw json.RawMessage) string {
 		return ""
 	}
 	return key + ": " + msg
+}
+
+// judgeC01 is judgeC01Raw with a panic of the code under test turned into a verdict.
+func judgeC01(c SyncCase) (k, m string, o *SyncObs) {
+	defer func() {
+		if r := recover(); r != nil {
+			k, m, o = "panic", fmt.Sprintf("the code under test panicked: %v", r), nil
+		}
+	}()
+	return judgeC01Raw(c)
 }
